@@ -606,6 +606,33 @@ def rule_version_gate(ctx):
         ctx.missing(R, "check_file_compiler_version/gate", "cannot evaluate the version test: %s" % u)
 
 
+def rule_cli_options(ctx, R="C02.15"):
+    ctx.rule(R, "every file named on the command line reaches the tool as an input: the options are declared with names and defaults only - none takes a variable number of values, swallows what follows it, or installs its own value parser")
+    MAIN_ = "cli/src/main.rs"
+    cli = find_item(MAIN_, "StructDef", "Cli") if "find_item" in globals() else None
+    if cli is None:
+        from astlib import find_item as _fi
+
+        cli = _fi(MAIN_, "StructDef", "Cli")
+    if cli is None:
+        return ctx.missing(R, "cli::Cli")
+    text = facts.src(MAIN_)
+    n = 0
+    plain = {"short", "long", "name", "default_value", "help", "value_name", "long_help", "help_heading", "display_order", "default_value_t"}
+    for f in cli["fields"]:
+        mm = re.search(r"((?:#\[[^\n]*\]\s*|///[^\n]*\n\s*)*)\b%s\s*:" % re.escape(f["name"]), text)
+        attrs = re.findall(r"#\[(?:clap|arg|command)\(((?:[^\[\]]|\[[^\]]*\])*)\)\]", mm.group(1), re.S) if mm else []
+        keys = set()
+        for a_ in attrs:
+            keys |= set(re.findall(r"(\w+)\s*(?==|,|$)", re.sub(r"=\s*[^,]+", "=", a_)))
+        n += 1
+        extra = keys - plain
+        ctx.check(R, "Cli/%s/declared-with-names-and-defaults-only" % f["name"], not extra, "clap attribute keys of `%s` besides naming and default: %s (e.g. `num_args = 1..` on an option makes it take the file names that follow it)" % (f["name"], sorted(extra)), site(MAIN_, cli))
+    ctx.floor(R, "command-line options inspected", n, 6)
+    inp = [f for f in cli["fields"] if f["name"] == "input_files"]
+    ctx.check(R, "Cli/input_files/positional-list", len(inp) == 1 and inp[0]["ty"].replace(" ", "") == "Vec<PathBuf>", "input_files: %s" % (inp[0]["ty"] if inp else "?"), site(MAIN_, cli))
+
+
 def run(ctx):
     rule_version_gate(ctx)
     rule_labels(ctx)
@@ -615,6 +642,7 @@ def run(ctx):
     rule_desugar(ctx)
     rule_tables(ctx)
     rule_duplicate_label(ctx)
+    rule_cli_options(ctx)
     c03.rule_exit_status(ctx, "C02.6")
     dropflow.rule_consumed(ctx, "C02.10")
     import parseval
